@@ -16,9 +16,13 @@ package channel
 
 // Send refuses, writing nothing, a record containing the split byte; otherwise
 // it performs exactly one Write of msg followed by the split byte.
+// (append(msg, split) may use msg's spare capacity: the byte just past the
+// record in the caller's backing array can be overwritten; the record itself
+// is not - see the last clause.)
 //@ func (split).Send
 //@   requires c.wc != nil
-//@   modifies writes(c.wc), wrLen(c.wc), wrData(c.wc)
+//@   modifies writes(c.wc), wrLen(c.wc), wrData(c.wc), mem(msg)
+//@   ensures[C11:record-untouched] forall(j int, 0 <= j && j < len(msg) ==> msg[j] == old(msg[j]))
 //@   ensures[C11:refuse] exists(i int, 0 <= i && i < len(msg) && msg[i] == c.split) ==> result != nil && writes(c.wc) == old(writes(c.wc))
 //@   ensures[C11:one-write] forall(i int, 0 <= i && i < len(msg) ==> msg[i] != c.split) ==> writes(c.wc) == old(writes(c.wc)) + 1 && wrLen(c.wc) == len(msg) + 1
 //@   ensures[C11:bytes] forall(i int, 0 <= i && i < len(msg) ==> msg[i] != c.split) ==> wrData(c.wc)[len(msg)] == c.split && forall(j int, 0 <= j && j < len(msg) ==> wrData(c.wc)[j] == old(msg[j]))
